@@ -335,6 +335,17 @@ impl<'tcx> Ex<'tcx> {
                 }
                 None
             }
+            ty::Adt(def, args) if def.is_struct() && def.all_fields().count() <= 8 => {
+                // a plain struct of decodable fields (e.g. RangeInclusive<i32> { start, end, exhausted })
+                let mut items = Vec::new();
+                for (i, fd) in def.non_enum_variant().fields.iter().enumerate() {
+                    let ft = fd.ty(tcx, args);
+                    let fo = layout.fields.offset(i).bytes() as usize;
+                    let fv = self.decode_const(tenv, bytes, ofs + fo, ft, depth + 1)?;
+                    items.push(J::A(vec![s(fd.name.as_str()), fv]));
+                }
+                Some(o(vec![("struct", o(vec![("adt", s(tcx.def_path_str(def.did()))), ("fields", J::A(items))]))]))
+            }
             ty::Tuple(tys) => {
                 let mut items = Vec::new();
                 for (i, ft) in tys.iter().enumerate() {
@@ -450,7 +461,11 @@ impl<'tcx> Ex<'tcx> {
                                             _ => {}
                                         }
                                     }
-                                } else if matches!(inner.kind(), ty::Array(..) | ty::Tuple(..)) && sz > 0 && ofs + sz <= a.len() {
+                                } else if (matches!(inner.kind(), ty::Array(..) | ty::Tuple(..))
+                                    || matches!(inner.kind(), ty::Adt(d, _) if d.is_struct()))
+                                    && sz > 0
+                                    && ofs + sz <= a.len()
+                                {
                                     let bytes = a.inspect_with_uninit_and_ptr_outside_interpreter(0..a.len());
                                     if let Some(j) = self.decode_const(tenv, bytes, ofs, *inner, 0) {
                                         v.push(("ref_const", j));
@@ -501,9 +516,19 @@ impl<'tcx> Ex<'tcx> {
                     v.push(("slice", J::B(true)));
                 }
             }
-            Ok(Ok(ConstValue::Indirect { .. })) => {
+            Ok(Ok(ConstValue::Indirect { alloc_id, offset })) => {
                 v.push(("indirect", J::B(true)));
                 v.push(("text", s(format!("{}", c.const_))));
+                // a constant table used by value (`Self::ALL[i]`): decode it as `&CONST` tables are
+                if matches!(cty.kind(), ty::Array(..) | ty::Tuple(..)) {
+                    if let Some(rustc_middle::mir::interpret::GlobalAlloc::Memory(alloc)) = tcx.try_get_global_alloc(alloc_id) {
+                        let a = alloc.inner();
+                        let bytes = a.inspect_with_uninit_and_ptr_outside_interpreter(0..a.len());
+                        if let Some(j) = self.decode_const(tenv, bytes, offset.bytes() as usize, cty, 0) {
+                            v.push(("val_const", j));
+                        }
+                    }
+                }
             }
             _ => {
                 v.push(("uneval", s(format!("{}", c.const_))));
